@@ -51,7 +51,7 @@ CHECKS = {
          "FASTA files passed to the file-based variants contain no record without bases.",
          "DESIGN.md §6 C11"),
  "C12": ("exploration", "exhaustive short byte strings per symbol range + proptest strings on both sides of the repetitiveness threshold; inverse-function and independent-unpacker oracles; thorough tier adds a coverage-guided libFuzzer campaign (cargo-fuzz target fz_pack, same oracle inside the target)",
-         "2.2*10^5 strings enumerated (all lengths/remainders for widths 4/3/2/1, max-symbol boundaries 3/4 5/6 15/16 at lengths 0..40); 2.4*10^4 (quick) / 4*10^5 (thorough) random strings up to 100 kB through both reference markers, all levels, and fresh-vs-reused compression contexts.",
+         "2.2*10^5 strings enumerated (all lengths/remainders for widths 4/3/2/1, max-symbol boundaries 3/4 5/6 15/16 at lengths 0..40); 2.4*10^4 (quick) / 4*10^5 (thorough) random strings up to 100 kB through both reference markers, all levels, and fresh-vs-reused compression contexts; 64 (quick) / 1500 (thorough) single-thread call histories over incompressible inputs: a base length, then every length from base-300 to base+base/256+80 round-tripped (frames larger than the input).",
          "The zstd crate's decoder is the reference for ZSTD frames.",
          "DESIGN.md §6 C12"),
  "C13": ("exploration", "model-based (stateful) testing: generated operation histories vs a sequential container model and an independent footer parser; integer codec vs the format rule; thorough tier adds a coverage-guided libFuzzer campaign (cargo-fuzz target fz_arc, same oracle inside the target)",
